@@ -269,6 +269,19 @@ class FnCheck(Check):
         b = Build(ex, st)
         ex.frames.append(Frame(mod, cdef, fn, self.target))
         self_v, args, kwargs = self.setup(b)
+        # parameters the function did not have when the baseline of this contract was recorded are bound to an arbitrary
+        # value (not to their default): a change that adds an optional parameter must hold the contract for every caller
+        params = [a.arg for a in fn.args.posonlyargs + fn.args.args + fn.args.kwonlyargs]
+        new_params = []
+        recorded = _recorded_signature(self.prop, self.id)
+        if recorded is not None:
+            n_pos = len(args) + (1 if self_v is not None and params and params[0] in ('self', 'cls') else 0)
+            for i, pname in enumerate(params):
+                if pname in recorded or pname in kwargs or i < n_pos:
+                    continue
+                kwargs = dict(kwargs)
+                kwargs[pname] = vany(fresh(Val, 'new_param_' + pname), maybe_none=True)
+                new_params.append(pname)
         ctx.callees = self.callees(ex)
         ctx.loops = self.loops(ex)
         ctx.hooks = self.hooks(ex)
@@ -317,9 +330,27 @@ class FnCheck(Check):
             'assumptions': sorted(ctx.assumptions), 'trusted': sorted(ctx.trusted | set(self.trusted)),
             'unsupported_notes': ctx.unsupported_notes[:20],
             'feasibility_queries': ctx.stats['feasibility_queries'],
+            'params': params, 'new_parameters_symbolic': new_params,
         }
         self._last = (ex, st0, outcomes, b)
         return vcs, meta
+
+
+_SIG_CACHE = {}
+
+
+def _recorded_signature(prop, check_id):
+    """Parameter names of the contract's target function at the time its baseline was recorded (None: not recorded)."""
+    import json
+    import os
+    if prop not in _SIG_CACHE:
+        path = os.path.join(os.path.dirname(os.path.dirname(os.path.abspath(__file__))), 'obligations', f'{prop}.json')
+        try:
+            with open(path) as f:
+                _SIG_CACHE[prop] = json.load(f).get('signatures', {})
+        except (OSError, ValueError):
+            _SIG_CACHE[prop] = {}
+    return _SIG_CACHE[prop].get(check_id)
 
 
 class SeqCheck(FnCheck):
